@@ -17,7 +17,7 @@ def bb_hints(flush, shared, delc):
 
 
 WRITES = ['put_coll', 'put_vars_rec', 'put_indep', 'iput_wait', 'bput_wait', 'varn', 'convert', 'var1_short', 'iput_varn', 'asym', 'iput_read_put_cancel']
-SYNCS = ['none', 'sync', 'flush', 'wait_all', 'redef', 'reopen']
+SYNCS = ['none', 'sync', 'flush', 'wait_all', 'redef', 'reopen', 'iget_wait']
 
 
 def do_write(s, kind, r, tag):
@@ -93,7 +93,23 @@ def gen(nps, configs, pairs, syncs, driver='bb'):
                 elif sy == 'redef': s.op('*', 'redef'); s.op('*', 'put_att', f=0, v=-1, name='a', xtype='int', n=1, vals=[1]); s.op('*', 'enddef')
                 elif sy == 'reopen':
                     s.op('*', 'buffer_detach'); s.op('*', 'close', f=0); s.op('*', 'open', f=0, path='a.nc', write=1, hints=hints); s.op('*', 'buffer_attach', size=4096)
-                if sy != 'none':
+                elif sy == 'iget_wait':
+                    # a wait whose explicit list names read requests only: each process reads its own earlier writes back through iget + wait_all
+                    for r in range(np):
+                        # records of its own columns this process has written itself (before a flush point a process need not know the others' appends)
+                        own = [i // (2 * np) for i, x in s.model.vars[1].vals.items() if x is not None and i % (2 * np) in (2 * r, 2 * r + 1)]
+                        reqs = [(0, [W * r], [W])] + ([(1, [0, 2 * r], [max(own) + 1, 2])] if own else [])
+                        for q, (v, st, ct) in enumerate(reqs):
+                            s.op(r, 'get', f=0, form='vara', v=v, s=st, c=ct, mem='int', nb='i', req=32 + 2 * r + q)
+                        s.op(r, 'wait', f=0, ids=['q%d' % (32 + 2 * r + q) for q in range(len(reqs))], all=1)
+                        for q, (v, st, ct) in enumerate(reqs):
+                            exp = [s.model.vars[v].vals.get(i) for i in D.region_indices(s.model.vars[v].shape if not s.model.vars[v].isrec else [s.model.numrecs] + list(s.model.vars[v].shape[1:]), st, ct, None)]
+                            lr = s.op(r, 'rbuf', req=32 + 2 * r + q)
+                            def chk(o, rk, lr=lr, exp=exp, v=v):
+                                i = D.cmp_lists(exp, o.vals())
+                                if i >= 0: return (('value', 'iget', 'own writes read through iget + wait on read ids only'), 'line %d rank %d: var %d element %d of the read buffer is %r, written before: %r' % (lr, rk, v, i, o.vals()[i], exp[i]))
+                            s.add_expect(lr, chk)
+                if sy not in ('none', 'iget_wait'):
                     # (ii) every rank sees every earlier write of every rank and the same record count
                     s.op('*', 'barrier')
                     for v in range(3): s.get_all('*', v, coll=1, what='all ranks after ' + sy)
@@ -184,7 +200,7 @@ def main(tier=None):
         configs = [(ENTRY, 0, 1), (ENTRY + 1, 1, 0), (0, 0, 1), (3 * ENTRY, 1, 1), (ENTRY + 4, 0, 0)]
         pairs = [('put_coll', 'put_vars_rec'), ('iput_wait', 'varn'), ('put_indep', 'convert'), ('bput_wait', 'var1_short'), ('varn', 'put_coll'), ('put_vars_rec', 'iput_wait'), ('convert', 'bput_wait'), ('var1_short', 'put_indep'),
                  ('iput_varn', 'asym'), ('asym', 'put_coll'), ('iput_read_put_cancel', 'put_coll'), ('varn', 'iput_read_put_cancel'), ('put_indep', 'iput_varn'), ('varn', 'asym')]
-        nps = (1, 2); syncs = ['none', 'sync', 'flush', 'wait_all', 'redef', 'reopen']
+        nps = (1, 2); syncs = ['none', 'sync', 'flush', 'wait_all', 'redef', 'reopen', 'iget_wait']
     bb = gen(nps, configs, pairs, syncs, 'bb')
     ref = gen(nps, [(0, 0, 1)], pairs, syncs, 'ref')
     res = runner.run_cases(b['vx'], [s.case for s in bb + ref], batch=30)
